@@ -39,4 +39,9 @@ let handle (toks : string list) : string =
       bool_str (bounds_ok !st (rect64_of_bits (z_of_string a) (z_of_string b) (z_of_string c) (z_of_string d)))
   | ["bounds_exact"; a; b; c; d] ->
       bool_str (bounds_exact !st (rect64_of_bits (z_of_string a) (z_of_string b) (z_of_string c) (z_of_string d)))
+  | ["geo_search"; a; b; c; d] ->
+      (* Model/Search.geo_search on the current spatial index: candidate ids, sorted *)
+      let l = geo_search (c_spatial !st) (rect64_of_bits (z_of_string a) (z_of_string b) (z_of_string c) (z_of_string d)) in
+      (match List.sort compare (List.map (fun o -> hex_of_bytes o.o_id) l) with
+       | [] -> "-" | s -> String.concat "," s)
   | _ -> "?unknown"
